@@ -21,9 +21,12 @@ open Pycel
 
 /-! ## ExcelCmp -/
 
-/-- `str.lower()` restricted to ASCII (the correspondence run sends ASCII text only). -/
+/-- `str.lower()` on ASCII and Latin-1: A-Z and U+00C0..U+00DE (except the sign U+00D7) move 32 up; every other
+    character (control characters, line breaks, `ß`, …) is unchanged.  Python agrees on all of U+0000..U+00FF; text
+    beyond Latin-1 is not sent by the correspondence run. -/
 def lowerChar (c : Char) : Char :=
-  if 65 ≤ c.toNat ∧ c.toNat ≤ 90 then Char.ofNat (c.toNat + 32) else c
+  if (65 ≤ c.toNat ∧ c.toNat ≤ 90) ∨ (192 ≤ c.toNat ∧ c.toNat ≤ 222 ∧ c.toNat ≠ 215) then Char.ofNat (c.toNat + 32)
+  else c
 
 def lower (s : List Char) : List Char := s.map lowerChar
 
